@@ -1,0 +1,14 @@
+//go:build verif
+
+package connectors
+
+// Accessor for the verification harness (/verif, property C11). Compiled only
+// with -tags verif.
+
+// VerifStartedReadSourceChannel wraps a harness-owned channel of read functions
+// as a ReadSourceChannel that counts as already started, so that Start (called
+// by the source runner on every non-empty split assignment) does not spawn a
+// reader of its own.
+func VerifStartedReadSourceChannel(c chan ReadFunc) *ReadSourceChannel {
+	return &ReadSourceChannel{C: c, started: true}
+}
